@@ -278,8 +278,10 @@ Lemma rewrite_file_change : forall e g d' r,
   group_change e g (e_groups (fst (rewrite_file e g d' r))).
 Proof.
   intros e g d' r Hc. unfold rewrite_file.
-  destruct (e_writable e) eqn:Ew; cbn [fst set_groups e_conf e_writable e_groups].
+  destruct (e_writable e) eqn:Ew; [destruct (e_store_ok e) eqn:Es|];
+    cbn [fst set_groups e_conf e_writable e_groups].
   - repeat split; auto.
+  - repeat split; auto. apply gc_same.
   - repeat split; auto. apply gc_same.
 Qed.
 
